@@ -391,7 +391,7 @@ def many_repetitions():
     return out
 
 
-POSITIVITY = [("(a + b) c", [(1, 4)], {}), ("((a + b) (c + d))", [(5,)], {}), ("(a + b + c) d", [(2, 3)], {}), ("a (b + 1)", [(3, 1)], {}), ("(a + b), b", [(3,), (3,)], {}), ("((a + b) c)", [(3,)], {"c": 3})]
+POSITIVITY = [("a ()", [(3, 5)], {}), ("() a", [(2, 3)], {}), ("a (b...)", [(3, 5)], {"b": ()}), ("(a + b) c", [(1, 4)], {}), ("((a + b) (c + d))", [(5,)], {}), ("(a + b + c) d", [(2, 3)], {}), ("a (b + 1)", [(3, 1)], {}), ("(a + b), b", [(3,), (3,)], {}), ("((a + b) c)", [(3,)], {"c": 3})]
 
 
 def positivity_cases(chk):
